@@ -310,6 +310,13 @@ def linkOpen (lk : Lookup) (n : LinkIn) : Bytes :=
                  (match n.title with | some t => [(B!"title", t)] | none => [])) ++
     [62]
 
+/-- the attributes of that `<a>` start tag as they are meant to be read back: `href`, then
+    `rel` for external / untrusted links, then the (escaped) `title` -/
+def linkAttrs (lk : Lookup) (n : LinkIn) : List (Bytes × Bytes) :=
+  [(B!"href", linkHref lk n.dest)] ++
+  (if n.ty = 1 ∨ n.untrusted = true then [(B!"rel", B!"noopener nofollow ugc")] else []) ++
+  (match n.title with | some t => [(B!"title", gesc t)] | none => [])
+
 /-- what `renderGnoLink` writes on leaving the node -/
 def linkClose (n : LinkIn) : Bytes :=
   if n.ty = 0 then [] else (getLinkIcons n).flatMap renderIcon ++ B!"</a>"
